@@ -1,5 +1,6 @@
 import CffiVerif.Proofs.ConstExpr
 import CffiVerif.Proofs.DefineConst
+import CffiVerif.Proofs.ConstExprNoWrap
 
 /-!
 C09 — integer constant expressions in a cdef evaluate as C evaluates them.
@@ -41,6 +42,19 @@ theorem unsupported_is_ffi_error (env : ConstExpr.Env) (n : String) (h : env n =
     ConstExpr.eval env .unsupported = .error .ffi ∧ ConstExpr.eval env (.ref n) = .error .ffi := by
   simp [ConstExpr.eval, h]
 
+/-- Error branch: a binary operator outside the ten (`<`, `==`, `&&`, `||` …) raises `FFIError`
+only after both operands were evaluated -- an error inside an operand wins. -/
+theorem other_binary_operator (env : ConstExpr.Env) (l r : Expr) :
+    (∀ a b, ConstExpr.eval env l = .ok a → ConstExpr.eval env r = .ok b →
+      ConstExpr.eval env (.binOther l r) = .error .ffi) ∧
+    (∀ e, ConstExpr.eval env l = .error e → ConstExpr.eval env (.binOther l r) = .error e) ∧
+    (∀ a e, ConstExpr.eval env l = .ok a → ConstExpr.eval env r = .error e →
+      ConstExpr.eval env (.binOther l r) = .error e) := by
+  refine ⟨?_, ?_, ?_⟩
+  · intro a b h1 h2; simp [ConstExpr.eval, h1, h2, bind, Except.bind]
+  · intro e h1; simp [ConstExpr.eval, h1, bind, Except.bind]
+  · intro a e h1 h2; simp [ConstExpr.eval, h1, h2, bind, Except.bind]
+
 /-- Every well-formed C integer literal (decimal, octal, hex, binary; any valid `u`/`l`/`ll`
 suffix; any magnitude) is read by cffi to its mathematical value: `rstrip('uUlL')`, the
 leading-`0` octal rule and the `0x`/`0b` fall-backs lose nothing. -/
@@ -77,6 +91,24 @@ theorem eval_agrees_partial (cenv : CConstExpr.Env) (penv : ConstExpr.Env)
     ConstExpr.eval penv e.toModel = .ok v :=
   (eval_agrees_aux cenv penv hag hok e hs t v h).1
 
+/-- **C09 for every expression without wrap-around** (stronger than `eval_agrees_partial`:
+unsigned operands are allowed).  If at every operator node the usual arithmetic conversions
+preserve the operand values and the mathematical result is representable in the result type
+(`noWrap`), then whenever C defines the value cffi computes exactly that value.  So cffi and
+C can differ only where an unsigned operation wraps around or a negative value is converted
+to an unsigned type -- the known finding C09/unsigned-typed-operand. -/
+theorem eval_agrees_nowrap (cenv : CConstExpr.Env) (penv : ConstExpr.Env)
+    (hag : EnvAgree cenv penv) (e : CExpr) (hn : noWrap cenv e = true) (t : CType) (v : Int)
+    (h : CConstExpr.eval cenv e = some (t, v)) :
+    ConstExpr.eval penv e.toModel = .ok v :=
+  eval_agrees_nowrap_aux cenv penv hag e hn t v h
+
+/-- Every value C's typed evaluation yields is representable in its type (sanity of the
+specification: unsigned results are reduced, signed overflow is `none`). -/
+theorem spec_value_in_range (cenv : CConstExpr.Env) (hok : EnvOk cenv) (e : CExpr) (t : CType) (v : Int)
+    (h : CConstExpr.eval cenv e = some (t, v)) : t.inRange v = true :=
+  eval_inRange cenv hok e t v h
+
 /-- `1u - 2`. -/
 def witness1 : CExpr :=
   .bin .sub (.int ⟨.dec, false, ['1'], ['u']⟩) (.int ⟨.dec, false, ['2'], []⟩)
@@ -100,6 +132,27 @@ theorem unrestricted_statement_false :
   rw [witness1_cffi] at h1
   revert h1
   decide
+
+/-- The witnesses are outside `noWrap`, as they must be. -/
+theorem witnesses_wrap :
+    noWrap CConstExpr.Env.empty witness1 = false ∧ noWrap CConstExpr.Env.empty witness2 = false := by decide
+
+-- Non-vacuity of `eval_agrees_nowrap`: `(0x80000000 + 1u) * 2 / 3u | 0xF0u` has unsigned operands throughout,
+-- does not wrap, and is 1431655926 in C and in cffi.
+def exUnsigned : CExpr :=
+  .bin .bor
+    (.bin .div (.bin .mul (.bin .add (.int ⟨.hex, false, ['8', '0', '0', '0', '0', '0', '0', '0'], []⟩)
+                                     (.int ⟨.dec, false, ['1'], ['u']⟩))
+                          (.int ⟨.dec, false, ['2'], ['L']⟩))
+               (.int ⟨.dec, false, ['3'], ['u']⟩))
+    (.int ⟨.hex, false, ['F', '0'], ['u']⟩)
+
+example : noWrap CConstExpr.Env.empty exUnsigned = true := by decide
+example : allSigned CConstExpr.Env.empty exUnsigned = false := by decide
+example : CConstExpr.eval CConstExpr.Env.empty exUnsigned = some (CType.long, 1431655926) := by decide
+example : ConstExpr.eval ConstExpr.Env.empty exUnsigned.toModel = .ok 1431655926 :=
+  eval_agrees_nowrap CConstExpr.Env.empty ConstExpr.Env.empty
+    (by intro n t v h; change none = some (t, v) at h; cases h) exUnsigned (by decide) CType.long _ (by decide)
 
 -- Non-vacuity of `eval_agrees_partial`: `-7 / 2 + (0x10 << 3) % 'a'` is all-signed, defined in C
 -- (value -3 + 128 % 97 = 28) and uses literals of three bases, a character constant and four operators.
